@@ -27,6 +27,8 @@ Fixpoint quote_body_esc (q : N) (s : str) : str :=
   end.
 Definition quote_esc (q : N) (s : str) : str := q :: quote_body_esc q s ++ [q].
 
+(* texts without the character U+0000.  No statement needs this any more: inside string literals,
+   regexp literals and comments U+0000 is an ordinary character (kept for reference only). *)
 Definition nul_free (s : str) : bool := forallb (fun c => negb (c =? 0)) s.
 Definition is_quote (q : N) : bool := (q =? 34) || (q =? 39).
 
